@@ -34,7 +34,10 @@ MatchHarness(e) == e.shape = "curried" => e.ph_full = PuzzleHashOf(FfIn(e))
 
 \* the rewritten spend runs, and its output is the old output re-targeted to the new coin
 MatchRuns(e) == (e.ff.ok /\ e.out1.ok) => e.out2.ok
-MatchRetarget(e) == (e.ff.ok /\ Usable(e.out1) /\ Usable(e.out2)) => Retargeted(e.out1.res, e.out2.res, e.nc)
+\* (outputs of the clvmr oracle arrive in the flat list form)
+Out1(e) == FromJ(e.out1.res)
+Out2(e) == FromJ(e.out2.res)
+MatchRetarget(e) == (e.ff.ok /\ Usable(e.out1) /\ Usable(e.out2)) => Retargeted(Out1(e), Out2(e), e.nc)
 
 Funders(e) == <<e.funder, [e.funder EXCEPT !.parent = e.funder.ph]>>
 StOf(e, coin, out) == Run(MachineIn(coin, out, Funders(e), e.consts, RangeOf(e.vk)))
@@ -43,11 +46,11 @@ CcObs(ps) == RangeOf(ps.r.spends[1].cc)
 \* (an inner ASSERT_MY_AMOUNT ties the spend to the amount: then only same-amount targets are judged)
 MatchSemantic(e) ==
   (e.ff.ok /\ Usable(e.out1)) =>
-    LET st1 == StOf(e, e.coin, e.out1.res)
+    LET st1 == StOf(e, e.coin, Out1(e))
         judged == /\ Accepted(st1) /\ FF \in st1.ret.spends[1].flags
-                  /\ (e.nc.amt = e.coin.amt \/ CountOp(e.out1.res, ASSERT_MY_AMOUNT) = 1)
+                  /\ (e.nc.amt = e.coin.amt \/ CountOp(Out1(e), ASSERT_MY_AMOUNT) = 1)
     IN judged => /\ Usable(e.out2)
-                 /\ LET st2 == StOf(e, e.nc, e.out2.res) IN
+                 /\ LET st2 == StOf(e, e.nc, Out2(e)) IN
                       /\ Accepted(st2)
                       /\ st2.ret.spends[1].cc = st1.ret.spends[1].cc
                  \* the implementation's own parse of the two outputs agrees
